@@ -31,7 +31,7 @@ ASSUMPTIONS = ["'has already sent its first offer' = the first offer was decided
                "an answer may leave up to SEND_COLLECTION_TIMEOUT after it was due"]
 FLOORS = {"quick": {"scenarios": 8000, "find_entries": 12000, "answers_predicted": 6000, "answers_matched": 6000,
                     "silent_by_mismatch": 10000, "silent_by_phase": 2000, "multicast_delayed_answers": 2000, "wildcard_entries": 5000,
-                    "lifecycle_classes": 9, "requests_with_more_than_80_find_entries": 120,
+                    "lifecycle_classes": 15, "requests_with_more_than_80_find_entries": 120,
                     "mesh_scenarios": 100, "mesh_find_deliveries_judged": 180, "mesh_find_answers_matched": 90}}
 # system-level shards: the mesh workload of pv/mesh.py under this property's boundary monitor (reports of other monitors are dropped)
 MESH = {"want": ("findanswer",), "claim": ("mesh:find-not-answered", "mesh:unicast-offer-that-no-find-explains"),
@@ -41,7 +41,7 @@ POOL = [(0x5001, 1, 1, 10), (0x5001, 2, 1, 10), (0x5001, 1, 2, 11), (0x5002, 1, 
 PEERS = [("10.0.8.9", 30490), ("2001:db8::89", 30490, 0, 0)]
 W = (0xFFFF, 0xFF, 0xFFFFFFFF)
 CLASSES = ("initial-wait", "first-offer:d-eps", "first-offer:before", "first-offer:after", "first-offer:d+eps", "first-offer:d-res", "in-collector",
-           "repetition", "main", "stop:d-eps", "stop:same-before", "stop:same-after", "stop:d+eps", "stopped")
+           "repetition", "main", "stop:d-eps", "stop:same-before", "stop:same-after", "stop:d+eps", "stopped", "restart-while-pending")
 
 
 def matches(svc, ent):
@@ -128,6 +128,8 @@ class Run:
                 ann.start()
             elif a["kind"] == "unannounce":
                 ann.stop_announce_service(self.insts[a["k"]])
+            elif a["kind"] == "reannounce":
+                ann.announce_service(self.insts[a["k"]])
             elif a["kind"] == "reboot_msg":
                 # the requester restarts and says so (session id starts over, reboot flag set) while its answer is still waiting
                 # in the collection window: the answer is owed all the same
@@ -163,7 +165,7 @@ def build(rng):
     stop_k = rng.randrange(ninst) if rng.random() < 0.45 else None
     x = T[-1] + 0.3125 if stop_k is not None else None
     cls = rng.choice(CLASSES)
-    if cls.startswith("stop") and stop_k is None:
+    if (cls.startswith("stop") or cls == "restart-while-pending") and stop_k is None:
         stop_k, x = rng.randrange(ninst), T[-1] + 0.3125
     rank = BEFORE
     order = "find-first"
@@ -185,6 +187,10 @@ def build(rng):
         y = (T[0] + T[1]) / 2 if cfg["reps"] else None
     elif cls == "main":
         y = T[-1] + 0.125
+    elif cls == "restart-while-pending":
+        # a multicast request whose delayed answer is still pending when the instance is withdrawn and announced again; the new
+        # run's initial wait outlasts the answer window, so the old request stays unanswered (decided below, once mc is known)
+        y = x - cfg["rr"][0] / 4 if cfg["rr"][0] > 0 and cfg["window"][0] > cfg["rr"][1] else None
     elif cls == "stop:d-eps":
         y = x - EPS
     elif cls == "stop:same-before":
@@ -197,7 +203,7 @@ def build(rng):
         y = x + 0.25
     if y is None or y <= s0:
         return None
-    mc = rng.random() < 0.5
+    mc = rng.random() < 0.5 or cls == "restart-while-pending"
     nent = rng.choice((1, 1, 1, 2, 3))
     if rng.random() < 0.05:
         nent = rng.choice((30, 45, 90, 130))  # one request asking for very many things at once: up to a few hundred answers fall due together
@@ -213,6 +219,8 @@ def build(rng):
     if x is not None:
         stop = (x, BEFORE, dict(kind="unannounce", k=stop_k))
         script += [stop, find] if order == "stop-first" else [find, stop]
+        if cls == "restart-while-pending":
+            script.append((x + cfg["rr"][0] / 4, BEFORE, dict(kind="reannounce", k=stop_k)))
     else:
         script.append(find)
     script.sort(key=lambda it: (it[0], it[1]))
